@@ -64,7 +64,7 @@ def validate_pool(ctx, traces, name):
     for (N, P), idx in sorted(groups.items()):
         cfg = ('SPECIFICATION TSpec\n'
                f'CONSTANTS N = {N} P = {P} FaultKs = {{{", ".join(str(i) for i in range(0, N + 1))}}} '
-               'FaultPoints = {"before", "mid", "after"} FaultModes = {"kill", "exit3", "raise"} '
+               'FaultPoints = {"before", "mid", "after"} FaultModes = {"kill", "exit3", "raise", "term"} '
                'Fixed = TRUE\nCONSTRAINT Track\nPOSTCONDITION Report\nCHECK_DEADLOCK FALSE\n')
         import harness.traces as T
         vs = _validate_cfg(ctx, [traces[i] for i in idx], f'{name}_N{N}_P{P}', cfg)
